@@ -23,6 +23,10 @@ def load_xyz(file_obj, delimiter=None, **kwargs):
     """
     # read the whole file into memory as a string
     raw = util.decode_text(file_obj.read()).strip()
+    if len(raw) == 0:
+        # a file without lines is a cloud without points
+        kwargs.update({"vertices": np.zeros((0, 3)), "colors": None})
+        return kwargs
     # get the first line to look at
     first = raw.split("\n", 1)[0].strip()
 
@@ -92,7 +96,8 @@ def export_xyz(cloud, write_colors=True, delimiter=None):
         write_colors
         and hasattr(cloud, "colors")
         and cloud.colors is not None
-        and len(cloud.colors) == len(cloud.vertices)
+        and np.shape(cloud.colors)[:1] == (len(cloud.vertices),)
+        and len(np.shape(cloud.colors)) == 2
     ):
         # stack colors and  vertices
         data = np.hstack((data, cloud.colors))
